@@ -26,7 +26,7 @@ RULE = ('Cases: initial lat in [-85,85] (strata |lat|<5, mid, >75, both signs), 
         'rotation with non-parallel rate harmonics and non-zero speed, and "discriminating": 4*d(h,h/2)+floor below '
         '1 m / 0.01 m/s / 1e-5 rad so that a non-vanishing error of that size is visible.')
 ASSUMPTIONS = ['reference RK4 step 0.5/0.25 ms; reference self-error (difference of the two) x4 added to the floor',
-               'rounding floor 1e-4 m, 1e-6 m/s, 1e-9 rad (accumulated float64 rounding over up to 6e5 steps)',
+               'rounding floor 1e-4 m, 1e-6 m/s, 1e-9 rad (accumulated float64 rounding over up to 6e5 steps), multiplied by cosh(T/570 s) (position, velocity: unstable vertical channel) and T/300 s (attitude) for the long horizons',
                'cases whose reference solution leaves |lat|<88, alt in [-5 km, 60 km], speed < 1500 m/s are inconclusive']
 
 COLS = ['gyro_x', 'gyro_y', 'gyro_z', 'accel_x', 'accel_y', 'accel_z']
@@ -151,7 +151,10 @@ def run_convergence(case, ctx):
     eh = state_distance(a, ref2)
     eh2 = state_distance(b, ref2)
     d = table_distance(a, b)
-    floor = FLOOR + 16 * referr
+    # accumulated float64 rounding is amplified by the unstable vertical channel (time constant sqrt(R/2g) ~ 570 s):
+    # x cosh(T/570) for position and velocity (x1 at 300 s, x4 at 1200 s, x3600 at one Schuler period)
+    amp_v = float(np.cosh(T * np.sqrt(2 * 9.8 / 6.37e6)))
+    floor = FLOOR * np.array([amp_v, amp_v, max(1.0, T / 300.0)]) + 16 * referr
     lim1 = 4 * d + floor
     lim2 = 0.75 * eh + floor
     info = (f'pva={pva.values.tolist()} type={stype} h={h} T={T} rate_amp={wamp:.3g} force_amp={famp:.3g}; err(h)={eh.tolist()} '
